@@ -68,6 +68,13 @@ def make_cases(rng, tier):
         w = "".join("struct %sIn { @location(0) pos: vec3<f32>, @location(1) extra%d: vec4<f32> }\n" % (n_, k) for k, n_ in enumerate(names_))
         w += "".join("@vertex fn vs_%s(v: %sIn) -> @builtin(position) vec4<f32> { return vec4<f32>(v.pos, 1.0); }\n" % (n_.lower(), n_) for n_ in names_)
         out.append({"id": len(out), "wgsl": w, "include": None, "opts": {"rustfmt": rep == 1}, "want_text": True, "nt": True})
+    # long entry point names (labels, constant and function names derived from them are reproduced whole, identically every time)
+    for rep, ln in enumerate((40, 48, 49, 64, 65, 120, 300)):
+        nm = ("accumulate_prefix_sums_over_tiles_" * 12)[:ln]
+        w = ("@group(0) @binding(0) var<storage, read_write> d: array<f32>;\n@compute @workgroup_size(64) fn %s() { d[0] = 1.0; }\n"
+             "@vertex fn vs_%s() -> @builtin(position) vec4<f32> { return vec4<f32>(0.0); }\n"
+             "@fragment fn fs_%s() -> @location(0) vec4<f32> { return vec4<f32>(0.0); }\n" % (nm, nm, nm))
+        out.append({"id": len(out), "wgsl": w, "include": None, "opts": {"rustfmt": rep % 2 == 1}, "want_text": True, "nt": True})
     # regenerating one include path after an edit that keeps the file's length (a result must depend on the source given,
     # not on what an earlier call with the same path was given)
     head_ = W.random_program(rng).render()
